@@ -60,11 +60,23 @@ Fixpoint sh_e (e : expr) {struct e} : list expr :=
       ++ map (fun e'' => ESeq ss e'') (sh_e e')
   | EMac m e' => [e'] ++ map (EMac m) (sh_e e')
   | EListLit b es => map (EListLit b) (delete_one es) ++ map (EListLit b) (shrink_one sh_e es)
+  | ERec fs es => map (ERec fs) (shrink_one sh_e es)
+  | EArrLit b es => map (EArrLit b) (shrink_one sh_e es)
+  | EField i e' => default_lits ++ map (EField i) (sh_e e')
+  | EClo n ps r es => map (EClo n ps r) (shrink_one sh_e es)
+  | EApp fn es => default_lits ++ map (fun x => EApp x es) (sh_e fn) ++ map (EApp fn) (shrink_one sh_e es)
+  | EUni fs i e' => map (EUni fs i) (sh_e e')
+  | ECase i e' => [ELit (LBool false); ELit (LBool true)] ++ map (ECase i) (sh_e e')
+  | EUGet i e' => default_lits ++ map (EUGet i) (sh_e e')
   end
 with sh_s (s : stmt) {struct s} : list stmt :=
   match s with
   | SAssG k e => map (SAssG k) (sh_e e)
   | SAssL k e => map (SAssL k) (sh_e e)
+  | SSetG k i e => map (SSetG k i) (sh_e e)
+  | SSetL k i e => map (SSetL k i) (sh_e e)
+  | SSetIG k i e => map (fun x => SSetIG k x e) (sh_e i) ++ map (SSetIG k i) (sh_e e)
+  | SSetIL k i e => map (fun x => SSetIL k x e) (sh_e i) ++ map (SSetIL k i) (sh_e e)
   | SPrint es => map SPrint (delete_one es) ++ map SPrint (shrink_one sh_e es)
   | SIf c a b =>
       map (fun c' => SIf c' a b) (sh_e c)
